@@ -236,6 +236,13 @@ func (s *initialCryptoStream) PopCryptoFrame(maxLen protocol.ByteCount) *wire.Cr
 			if c.start == protocol.InvalidByteCount {
 				continue
 			}
+			if c.start >= c.end {
+				// An empty cut (e.g. around a zero-length host name) has nothing left to send.
+				// Drop it, otherwise it would never be finished and block everything queued behind it.
+				s.cuts[i].start = protocol.InvalidByteCount
+				s.cuts[i].end = protocol.InvalidByteCount
+				continue
+			}
 			foundCuts = true
 			if f != nil {
 				break
@@ -258,6 +265,10 @@ func (s *initialCryptoStream) PopCryptoFrame(maxLen protocol.ByteCount) *wire.Cr
 			s.writeBuf = s.writeBuf[s.end:]
 			s.end = protocol.InvalidByteCount
 			s.scramble = false
+		}
+		if f == nil {
+			// Only empty cuts were left: continue with what was written after the ClientHello.
+			return s.baseCryptoStream.PopCryptoFrame(maxLen)
 		}
 		return f
 	}
